@@ -41,6 +41,10 @@ CHECKS = {
                 technique="bounded model checking in z3 of control-flow automata compiled from the real WorkerGateway._local_schedulexec/executetask/serve and WorkerPool methods over histories of body outcomes; counterexamples replayed on the real classes",
                 text="Bounded model checking over all schedules of receiver and main thread for histories of remote_exec outcomes (sequential and overlapping submission) in main_thread_only mode.",
                 note="trusted: the AST->CFA translator (validated per run against the real classes), the models of Lock/Event/set/list/thread start, the body/Channel.close/loads_internal stubs listed in the evidence, the time rule (a timeout fires only when nothing else can run), z3"),
+    "C11": dict(cat="model_checking", ref="DESIGN.md §2 E2, §4 C11", engine="E2-py2ts-bmc",
+                technique="bounded model checking in z3 of control-flow automata compiled from the real _terminate_execution/serve/integrate_as_primary_thread/executetask code with a model clock for the bounded waits",
+                text="Bounded model checking of the worker-side termination protocol after loss of the initiator: every explored state reaches 'process gone' within a model time of 15 s. The operating system (signals, real kills) is a stub; the claim is about the protocol.",
+                note="trusted: translator (validated per run), primitive models, SIGINT/os._exit/body stubs and the time rule listed in the evidence, z3; real processes and signals are outside"),
 }
 
 NOT_APPLICABLE = [
